@@ -41,7 +41,9 @@ var addrKinds = []struct {
 }
 
 // "timeout": the resolver gives up only when the lookup's own deadline has passed and returns that context's error
-var behaviours = []string{"names", "empty", "error", "slow", "timeout"}
+// "names-with-error": the resolver returns an error next to some names (net.LookupAddr does when it filtered out a
+// malformed record): a failed lookup all the same - no names attached, nothing remembered
+var behaviours = []string{"names", "empty", "error", "slow", "timeout", "names-with-error"}
 
 // the behaviours of the exhaustive cross product (genA); "timeout" appears in the recovery items
 const crossBehaviours = 4
@@ -87,6 +89,8 @@ func runA(sc *AScn, prefix []int, sig []uint32) (*vsched.Exec, *result.Results, 
 			return []string{}, nil
 		case "error":
 			return nil, errors.New("lookup failed")
+		case "names-with-error":
+			return []string{"name-of-" + a + "."}, errors.New("lookup failed: a malformed record was filtered out")
 		case "slow":
 			vtime.Sleep(3 * time.Second)
 		}
@@ -163,7 +167,7 @@ func checkA(sc *AScn, x *vsched.Exec, before, doc *result.Results, calls map[str
 			switch behaviours[sc.Beh[a]] {
 			case "empty":
 				w = nil
-			case "error", "timeout":
+			case "error", "timeout", "names-with-error":
 				failed = true
 			}
 			if !((len(w) == 0 && len(h.ReverseDns) == 0) || reflect.DeepEqual(h.ReverseDns, w)) {
